@@ -13,7 +13,7 @@ from webauthn.helpers import (
     validate_certificate_chain,
     verify_signature,
 )
-from webauthn.helpers.cose import COSEAlgorithmIdentifier
+from webauthn.helpers.cose import COSECRV, COSEAlgorithmIdentifier
 from webauthn.helpers.decode_credential_public_key import (
     DecodedEC2PublicKey,
     decode_credential_public_key,
@@ -85,6 +85,16 @@ def verify_fido_u2f(
     decoded_public_key = decode_credential_public_key(credential_public_key)
     if not isinstance(decoded_public_key, DecodedEC2PublicKey):
         raise InvalidRegistrationResponse("Credential public key was not EC2 (FIDO-U2F)")
+
+    # U2F credentials are ES256 keys on P-256. Neither value is covered by the U2F signature
+    # base (only x and y are), so they have to be checked here
+    if (
+        decoded_public_key.alg != COSEAlgorithmIdentifier.ECDSA_SHA_256
+        or decoded_public_key.crv != COSECRV.P256
+    ):
+        raise InvalidRegistrationResponse(
+            "Credential public key was not an ES256 key on P-256 (FIDO-U2F)"
+        )
 
     # Convert the public key to "Raw ANSI X9.62 public key format"
     public_key_u2f = b"".join(
